@@ -8,7 +8,7 @@ from ..terms import A, C, F, V, L, NIL, call, conj, TRUE, FAIL, show_clause, sho
 ID = 'C09'
 LEVEL = 'model_checking'
 RULE = ('(each of call/1, once/1, findall/3 also as a direct operand of every control construct: left, right and middle of a disjunction, condition with and without else, then-branch, else-branch, under negation) (thorough: also EVERY tower of 2 and of 3 wrappers out of call/1, once/1, call(once,.), call(call,.), findall(f(X,Y),.,Bag) around each goal) every program t(..) :- [Gv = Goal,] Builtin for Builtin in {call(G), call(G\',Extra..) for every split of '
-        'the goal\'s arguments into carried and extra arguments (<= 2 extra; for the 12- and 6-argument predicates every split, i.e. call/1 .. call/13; and call(call(G,A..),B..) with extra arguments at both levels for every split), once(G), \\+ call(G), findall(T,G,L) for 6 templates, '
+        'the goal\'s arguments into carried and extra arguments (<= 2 extra; for the 12- and 6-argument predicates every split, i.e. call/1 .. call/13; and call(call(G,A..),B..) with extra arguments at both levels for every split), once(G), \\+ call(G), findall(T,G,L) for 6 templates given in place and through a variable bound before, '
         'each optionally followed by a continuation goal or used twice in a row on the same goal term} x goal in {atoms and compound goals with 0/1/2 solutions '
         'over compiled facts, a rule, dynamic facts, a predicate with both compiled clauses and a dynamic fact, an undefined predicate} x goal written inline, arriving in a '
         'variable bound at run time, or through a chain of two variables aliased before the goal is bound [thorough: x one level of nesting of the builtins inside each other], each '
@@ -73,6 +73,9 @@ def builtin_goals(goal, nesting):
     forms.append(('not-call', goal, lambda g: ('\\+', call(F('call', g))), False))
     for ti, t in enumerate(TEMPLATES):
         forms.append(('findall-T%d' % ti, goal, lambda g, t=t: call(F('findall', t, g, Lv)), True))
+        # the template reaches findall in a VARIABLE that was bound to it before (the instances are instances of
+        # what the variable stands for at each answer)
+        forms.append(('findall-template-in-variable-T%d' % ti, goal, lambda g, t=t: conj(call(F('=', V('Tv'), t)), call(F('findall', V('Tv'), g, Lv))), True))
     if nesting:
         forms.append(('once(call)', goal, lambda g: call(F('once', F('call', g))), False))
         forms.append(('call(once)', goal, lambda g: call(F('call', A('once'), g)), False))
